@@ -41,6 +41,9 @@ THEOREMS = [
     "C09_history",
     "C09_load_aligned",
     "C09_load_redundant",
+    "C09_imp_cell_once",
+    "C09_imp_data_aligned",
+    "C09_imp_refused",
 ]
 
 CLASSES = ci.CLASSES
